@@ -10,6 +10,8 @@ from sa import defuse
 from sa import effects
 from sa import index
 from sa import oracles
+from sa import tables
+from sa.consteval import Obj
 from sa.rules import common
 from sa.rules import shared
 from sa.rules import c10
@@ -318,6 +320,135 @@ def r8_resume_equivalence(ctx):
   # both per-call loops see the virtual IO operators (shared with C10.R2)
 
 
+def r11_calibration_numeric(ctx, R='C09.R11'):
+  """Calibration run numerically on a label model with the exact array model:
+  Calibrator.calibrate, _initialize_model_qsvs, _update_qsvs, the registered
+  init / calibrate functions and the default update function are the
+  repository's; only the interpreter (tensor contents per sample) is a
+  stand-in. Oracle: runtime tensors end at the moving average (0.95 / 0.05,
+  first sample initialises) of their true per-sample min / max in dataset
+  order, constants at their true min / max; D1 then D2 from the returned
+  result equals one pass over D1 + D2; the result passed in is not modified."""
+  import copy as _copy  # pylint: disable=g-import-not-at-top
+  import fractions  # pylint: disable=g-import-not-at-top
+  from sa import absint, consteval  # pylint: disable=g-import-not-at-top
+  from sa.consteval import Ext, Ref  # pylint: disable=g-import-not-at-top
+  from sa.ndarr import NdArr  # pylint: disable=g-import-not-at-top
+  from sa.rules import c11  # pylint: disable=g-import-not-at-top
+  rs = ctx.rule(R, 'calibration, numerically: moving average of the true per-sample min/max in dataset order, constants exact, D1 then D2 == D1+D2, previous result untouched', floor=1)
+  cal = ctx.repo.func(f'{CAL}.calibrate')
+  load = ctx.repo.func(f'{CAL}.load_model_qsvs')
+  getq = ctx.repo.func(f'{CAL}.get_model_qsvs')
+  ctx.instance(R)
+  BO = consteval.schema_enum('BuiltinOperator')
+  code = lambda n: Ext(f'BuiltinOperator.{n}', BO[n])
+  OP, ALG, drq, srq, bad = c11._domain(ctx)  # pylint: disable=protected-access
+  MM = ALG['MIN_MAX_UNIFORM_QUANT']
+  reg = tables.registry(ctx)
+  weights = NdArr((2, 3), [5, -7, 2, 0, 9, -1])
+
+  def model():
+    names = ['x', 'w', 'h', 'y']
+    tensors = [Obj('x:TensorT', {'name': n.encode(), 'buffer': 1 if n == 'w' else 0, 'type': 0, 'shape': [2, 3] if n == 'w' else [1, 2]}) for n in names]
+    ops = [Obj('x:OperatorT', {'label': 'fc', 'opcodeIndex': 0, 'inputs': [0, 1], 'outputs': [2], 'builtinOptions': None}),
+           Obj('x:OperatorT', {'label': 'fc2', 'opcodeIndex': 0, 'inputs': [2, 1], 'outputs': [3], 'builtinOptions': None})]   # h is an output of fc AND an input of fc2
+    sg = Obj('x:SubGraphT', {'tensors': tensors, 'operators': ops, 'inputs': [0], 'outputs': [3], 'name': b'main'})
+    return Obj('x:ModelT', {'subgraphs': [sg], 'buffers': [Obj('x:BufferT', {'data': None}), Obj('x:BufferT', {'data': 'W'})],
+                            'operatorCodes': [Obj('x:OperatorCodeT', {'builtinCode': code('FULLY_CONNECTED')})]})
+
+  def sample(k):   # contents of the runtime tensors for sample k: distinct ranges per tensor and sample
+    return {'x': NdArr((1, 2), [k, -2 * k]), 'h': NdArr((1, 2), [10 - 3 * k, k * k]), 'y': NdArr((1, 2), [-k - 1, 4 - k])}
+  current = {}
+
+  def lookup(alg, op, what):
+    try:
+      return Ref('func', reg[alg][op][what].fq)
+    except (KeyError, TypeError):
+      raise index.AnalysisError(f'{R}: registry lookup with an undecided key ({alg!r}, {op!r})')
+
+  def invoke(a, k):
+    current.clear()
+    current.update(sample(a[1]['k']))
+    return {}
+  hooks = {
+      c11.CHECK_FQ: (lambda a, k: c11._mk_interp(ctx).hooks[c11.CHECK_FQ](a, k)),  # pylint: disable=protected-access
+      'algorithm_manager.get_init_qsv_func': lambda a, k: lookup(a[0], a[1], 'init'),
+      'algorithm_manager.get_quantization_func': lambda a, k: lookup(a[0], a[1], 'calibrate' if getattr(a[2], 'name', '') == 'CALIBRATE' else 'materialize'),
+      'tfl_interpreter_utils.invoke_interpreter_signature': invoke,
+      'tfl_interpreter_utils.get_signature_main_subgraph_index': lambda a, k: 0,
+      'tfl_interpreter_utils.get_tensor_name_to_content_map': lambda a, k: dict(current),
+      'tfl_flatbuffer_utils.get_tensor_data': lambda a, k: (weights if a[0].fields.get('buffer') == 1 else None),
+  }
+  store = {'.*': [c11._recipe('.*', OP['ALL_SUPPORTED'], MM, srq)]}  # pylint: disable=protected-access
+
+  def new_cal(it):
+    return Obj(CAL, {'_flatbuffer_model': model(), '_tfl_interpreter': Obj('x:Interpreter', {'reset_all_variables': shared._StandIn(lambda a, k, kind=None: None, 'r')}),  # pylint: disable=protected-access
+                     '_tensor_content_map': {}, '_model_qsvs': {}, '_cached_output': []})
+
+  def run(it, calo, ks):
+    rm = Obj('recipe_manager:RecipeManager', {'_scope_configs': store})
+    o = it.outcomes(cal, [calo, [{'k': k} for k in ks], rm, 'sig'], copy_args=False)
+    return len(o) == 1 and o[0].kind == 'return', o
+
+  def num(v):
+    if isinstance(v, NdArr) and v.size == 1:
+      return fractions.Fraction(v.data[0])
+    return fractions.Fraction(v)
+
+  def expected(ks):
+    out = {}
+    for name in ('x', 'h', 'y'):
+      mn = mx = None
+      for k in ks:
+        d = sample(k)[name].data
+        a, b = fractions.Fraction(min(d)), fractions.Fraction(max(d))
+        mn = a if mn is None else fractions.Fraction(95, 100) * mn + fractions.Fraction(5, 100) * a
+        mx = b if mx is None else fractions.Fraction(95, 100) * mx + fractions.Fraction(5, 100) * b
+      out[name] = (mn, mx)
+    return out
+  rs.exhaustive = True
+  for ks in ([1], [1, 2], [3, 1, 2], [2, 2, 5, 1]):
+    it = absint.Interp(ctx.repo, ctx.ev, hooks=hooks)
+    calo = new_cal(it)
+    ok, o = run(it, calo, ks)
+    label = f'samples {ks}'
+    if not ok:
+      ctx.check(R, False, cal.node, cal, label, f'not decided: {[x.short()[:120] for x in o]}')
+      continue
+    qs = calo.fields['_model_qsvs']
+    want = expected(ks)
+    for name, (mn, mx) in want.items():
+      e = qs.get(name)
+      good = isinstance(e, dict) and 'min' in e and 'max' in e and abs(num(e['min']) - mn) <= fractions.Fraction(1, 10 ** 9) and abs(num(e['max']) - mx) <= fractions.Fraction(1, 10 ** 9)
+      got = (float(num(e['min'])), float(num(e['max']))) if isinstance(e, dict) and 'min' in e else e
+      ctx.check(R, good, cal.node, cal, f'{label}: {name} -> {got}', f'statistics of {name} must be the moving average of its per-sample min/max in dataset order: ({float(mn):.6g}, {float(mx):.6g})')
+    ew = qs.get('w')
+    ctx.check(R, isinstance(ew, dict) and isinstance(ew.get('min'), NdArr) and sorted(ew['min'].data) == [-7] and sorted(ew['max'].data) == [9] or
+              (isinstance(ew, dict) and isinstance(ew.get('min'), NdArr) and ew['min'].size == 2 and ew['min'].data == [-7, -1] and ew['max'].data == [5, 9]),
+              cal.node, cal, f'{label}: constant w -> {ew!r}', 'a constant keeps its true min/max (per tensor, or per channel for channel-wise weights), whatever the samples')
+  # D1 then D2 from the returned result == one pass over D1 + D2; the result passed in is untouched
+  it = absint.Interp(ctx.repo, ctx.ev, hooks=hooks)
+  a = new_cal(it)
+  ok1, _ = run(it, a, [3, 1])
+  first = a.fields['_model_qsvs']
+  snapshot = _copy.deepcopy(first)
+  b = new_cal(it)
+  it.outcomes(load, [b, first], copy_args=False)
+  ok2, _ = run(it, b, [2, 4])
+  c = new_cal(it)
+  ok3, _ = run(it, c, [3, 1, 2, 4])
+  if ok1 and ok2 and ok3:
+    qb, qc = b.fields['_model_qsvs'], c.fields['_model_qsvs']
+    same = set(qb) == set(qc) and all(abs(num(qb[n][s]) - num(qc[n][s])) <= fractions.Fraction(1, 10 ** 9) for n in ('x', 'h', 'y') for s in ('min', 'max'))
+    ctx.check(R, same, cal.node, cal, 'D1=[3,1] then D2=[2,4] from the returned result vs one pass over [3,1,2,4]',
+              f'resumed calibration gives {({n: (float(num(qb[n]["min"])), float(num(qb[n]["max"]))) for n in ("x", "h", "y")})}, one pass gives '
+              f'{({n: (float(num(qc[n]["min"])), float(num(qc[n]["max"]))) for n in ("x", "h", "y")})}')
+    unchanged = set(first) == set(snapshot) and all(first[n] == snapshot[n] or (isinstance(first[n], dict) and all(num(first[n][s]) == num(snapshot[n][s]) for s in first[n] if not isinstance(first[n][s], NdArr) or first[n][s].size == 1)) for n in first)
+    ctx.check(R, unchanged, load.node, load, 'previous result after resuming', 'the calibration result that was passed in has been modified by the resumed calibration')
+  else:
+    ctx.check(R, False, cal.node, cal, 'resume scenario', 'not decided')
+
+
 def run(ctx):
   ctx.assume('np.min / np.max / np.minimum / np.maximum have their numpy meaning')
   r1_copy_barrier(ctx)
@@ -329,5 +460,6 @@ def run(ctx):
   r8_resume_equivalence(ctx)
   shared.rule_single_traversal(ctx, 'C09.R9', ['quantizer:Quantizer.calibrate', 'calibrator:Calibrator.calibrate'])
   # every selected operator is calibrated on every sample: the operator loop asks the recipe once per operator, with that operator's own scope (C10.R2)
+  r11_calibration_numeric(ctx)
   from sa.rules import c10, c19  # pylint: disable=g-import-not-at-top
   c19._relabel(ctx, 'C10.R2', 'C09.R10', 'every operator of every sample is looked up in the recipe with its own scope - no per-type or per-round shortcut (C10.R2)', c10.r2_one_protocol)
